@@ -118,6 +118,7 @@ const STAGES: &[(&str, StageFn)] = &[
     ("c17.cli", c17::cli),
     ("c17.killed", c17::killed),
     ("c17.nearby", c17::nearby),
+    ("c17.pidreuse", c17::pidreuse),
     ("selfcheck", selfcheck::run),
     ("core-eval", coreeval::core_eval),
     ("ref-eval", coreeval::ref_eval),
